@@ -7,6 +7,8 @@ use crate::ops::{self, Op};
 use crate::payload::Payload;
 use crate::state::State;
 use crate::step::{self, prop_names, Failure, JudgeCfg, Props};
+#[allow(unused_imports)]
+use crate::state::State as _StateAlias;
 use indextree::{Arena, NodeId};
 use rayon::prelude::*;
 use std::collections::{BTreeMap, HashMap, HashSet};
@@ -581,6 +583,118 @@ pub fn explore(cfg: &RunCfg, known: &Known) -> Report {
         rep.samples.push(v);
     }
     rep.violations = viol_order.iter().map(|k| viol[k].clone()).collect();
+    rep.wall_s = t0.elapsed().as_secs_f64();
+    rep
+}
+
+/// Single-step exploration from larger forests than the closure reaches: every ordered tree shape
+/// with up to `max_nodes` nodes is built through the explorer's own `step` (so the model is in
+/// lock-step), once as a tree and once as the top-level chain left by removing its root; then every
+/// operation of the alphabet is applied once and judged like any other transition, and the state
+/// judges run on the shape and on every successor.
+pub fn explore_shapes(cfg: &RunCfg, max_nodes: usize, known: &Known) -> Report {
+    let t0 = Instant::now();
+    let pool = rayon::ThreadPoolBuilder::new().num_threads(cfg.threads.max(1)).build().expect("thread pool");
+    let mut shapes: Vec<Vec<usize>> = Vec::new();
+    for n in 2..=max_nodes {
+        shapes.extend(crate::pp::shapes(n));
+    }
+    let target = cfg.judge.target;
+    let quiet = JudgeCfg::default();
+    let results: Vec<(u64, u64, Vec<(Failure, Vec<Op>, Option<Op>)>)> = pool.install(|| {
+        shapes
+            .par_iter()
+            .map(|parent| {
+                let mut out: Vec<(Failure, Vec<Op>, Option<Op>)> = Vec::new();
+                let (mut st_n, mut tr_n) = (0u64, 0u64);
+                for chain_variant in [false, true] {
+                    // build: pre-order numbering == slot numbering
+                    let mut path: Vec<Op> = vec![Op::NewNode];
+                    for i in 1..parent.len() {
+                        path.push(Op::AppendValue(parent[i]));
+                    }
+                    if chain_variant {
+                        if parent.iter().filter(|p| **p == 0).count() < 2 {
+                            continue;
+                        }
+                        path.push(Op::Remove(0));
+                    }
+                    let mut s = State::initial(Arena::new());
+                    let mut ok = true;
+                    for op in &path {
+                        let r = step::step(&s, *op, &quiet);
+                        if r.failures.iter().any(|f| f.shaping) || r.next.is_none() {
+                            ok = false; // the closure reports defects of the building calls themselves
+                            break;
+                        }
+                        s = r.next.unwrap();
+                    }
+                    if !ok {
+                        continue;
+                    }
+                    st_n += 1;
+                    let mut ctr = StateJudgeCounters { pulls: 0, product_steps: 0, lockstep: 0 };
+                    for f in judges::judge_state(&s, &cfg.judge, &cfg.profile, 64, 64, &mut ctr) {
+                        out.push((f, path.clone(), None));
+                    }
+                    for op in step::enabled_ops(&s, parent.len() + 1, 64, &cfg.profile) {
+                        tr_n += 1;
+                        let r = step::step(&s, op, &cfg.judge);
+                        let shaped = r.failures.iter().any(|f| f.shaping);
+                        for f in r.failures {
+                            out.push((f, path.clone(), Some(op)));
+                        }
+                        if shaped {
+                            continue;
+                        }
+                        if let Some(n) = r.next {
+                            if n.key != s.key {
+                                st_n += 1;
+                                let mut p2 = path.clone();
+                                p2.push(op);
+                                for f in judges::judge_state(&n, &cfg.judge, &cfg.profile, 64, 64, &mut ctr) {
+                                    out.push((f, p2.clone(), None));
+                                }
+                            }
+                        }
+                    }
+                }
+                out.retain(|(f, _, _)| f.props & target != 0);
+                (st_n, tr_n, out)
+            })
+            .collect()
+    });
+    let mut rep = Report { n: max_nodes, a: max_nodes + 1, exhaustive: true, ..Default::default() };
+    let mut seen_sig: Vec<String> = Vec::new();
+    for (st_n, tr_n, fails) in results {
+        rep.states += st_n;
+        rep.transitions += tr_n;
+        for (f, path, op) in fails {
+            if seen_sig.contains(&f.sig) {
+                if let Some(v) = rep.violations.iter_mut().find(|v| v.sig == f.sig) {
+                    v.count += 1;
+                }
+                continue;
+            }
+            seen_sig.push(f.sig.clone());
+            let is_known = known.matches(f.props & target, &f.sig);
+            rep.violations.push(Violation {
+                props: f.props,
+                sig: f.sig.clone(),
+                judge: f.judge.to_string(),
+                detail: f.detail,
+                init: "Arena::new()".into(),
+                path,
+                op,
+                count: 1,
+                known: is_known,
+                bounds: (max_nodes, max_nodes + 1),
+            });
+        }
+    }
+    rep.violations.sort_by_key(|v| v.path.len());
+    rep.traces_validated = rep.states;
+    rep.samples.push(vec![format!("{} tree shapes with 2..={} nodes, each also as the top-level chain left by removing its root; every operation applied once", shapes.len(), max_nodes)]);
     rep.wall_s = t0.elapsed().as_secs_f64();
     rep
 }
